@@ -197,6 +197,83 @@ def unit_star(morph):
     return res
 
 
+def unit_lineout():
+    """assign_lineout_vals: the preamble (state lists) and the two fan-interior blocks, extracted mechanically from the real method body and executed symbolically.
+    Dropped by the extraction: the row loop, the region-selection comparisons and the final slice store `vals[3:] = [...]` (its right-hand side is evaluated instead)."""
+    import ast
+    from vc import sx
+    res = {'obligations': [], 'functions': _finfo('assign_lineout_vals', 'expansion_states'), 'engine_errors': []}; O = res['obligations']
+    fv = R.func_ref('%s::SetupRiemannProblem.assign_lineout_vals' % MOD)
+    body = fv.node.body
+    loops = [n for n in body if isinstance(n, ast.For)]
+    if len(loops) != 1: O.append(core.Obl('C19/lineout/extraction', 'open', 'extraction', 0.0, detail='%d row loops' % len(loops))); return res
+    pre = [n for n in body[:body.index(loops[0])] if not (isinstance(n, ast.Assign) and any(isinstance(t_, ast.Name) and t_.id in ('xy_thetas_rad', 'lineout_vals') for t_ in n.targets))]
+    pB, rB, MB, gB, pT, rT, MT, gT, pst = sp.symbols('pB rB MB gB pT rT MT gT p_star', positive=True)
+    thBd, thTd = sp.symbols('thetaB_deg thetaT_deg', real=True)
+    names = ['uB', 'vB', 'uT', 'vT', 'rB_star', 'MB_star', 'uB_star', 'vB_star', 'rT_star', 'MT_star', 'uT_star', 'vT_star']
+    A = {n: sp.Symbol(n, positive=n[0] in 'rM', real=True) for n in names}
+    attrs = dict(A, bottom_state=(pB, rB, MB, thBd, gB), top_state=(pT, rT, MT, thTd, gT), pressure_solution=pst,
+                 angles={'BR': Vec([sp.Symbol('aBR0', real=True), sp.Symbol('aBR1', real=True)]), 'TR': Vec([sp.Symbol('aTR0', real=True), sp.Symbol('aTR1', real=True)]), 'CD': sp.Symbol('aCD', real=True)}, morphology='R-C-R')
+    hy = [gB > 1, gT > 1, MB > 1, MT > 1]
+    fans = []
+    for n in ast.walk(loops[0]):
+        if isinstance(n, ast.If):
+            src = ast.unparse(n.test).replace(' ', '')
+            for key in ('BR', 'TR'):
+                if src == "angles['%s'][0]<vals[2]<angles['%s'][1]" % (key, key): fans.append((key, n.body))
+    O.append(core.structural('C19/lineout/two_fan_blocks', sorted(k for k, _ in fans) == ['BR', 'TR'], str([k for k, _ in fans]), None, 'ast-structural', 'one fan-interior block per side'))
+    phi = sp.Symbol('polar_angle', real=True); pf = sp.Symbol('p_fan', positive=True)
+    for key, blk in fans:
+        side = 'bottom' if key == 'BR' else 'top'
+        st, g_, thd = ((pB, rB, MB, thBd, gB), gB, thBd) if key == 'BR' else ((pT, rT, MT, thTd, gT), gT, thTd)
+        box = {}
+        def fsolve(I, a, k, box=box):
+            box['res'] = sp.sympify(I.apply(a[0], [pf], {})); return Vec([pf])
+        last = blk[-1]
+        ok_last = isinstance(last, ast.Assign) and ast.unparse(last.targets[0]).replace(' ', '') == 'vals[3:]'
+        def thunk(run, blk=blk, last=last):
+            I = sx.Interp(run, externals={'scipy.optimize.fsolve': fsolve})
+            obj = Obj(KEY, dict(attrs)); env = sx.Env(fv.module, None, fv)
+            env.locals.update({'self': obj, 'xs': Arr(sp.Symbol('xq', real=True)), 'ys': Arr(sp.Symbol('yq', real=True)), 'ii': sp.Symbol('row', integer=True, nonnegative=True),
+                               'vals': Vec([sp.Symbol('xq', real=True), sp.Symbol('yq', real=True), phi] + [sp.Symbol('old%d' % i_) for i_ in range(6)]), 'p_low': sp.Symbol('p_low_prev', positive=True), 'p_high': sp.Symbol('p_high_prev', positive=True)})
+            I.block(pre, env)
+            env.locals['angles'] = attrs['angles']
+            I.block(blk[:-1], env)
+            return I.eval(last.value, env), {k_: env.locals.get(k_) for k_ in ('bottom_vals', 'top_vals', 'bottom_star_vals', 'top_star_vals')}
+        base = 'C19/lineout/%s_fan' % side
+        try:
+            paths = [p_ for p_ in sx.explore(thunk, hyps=hy, feas=extract.default_feas) if p_.outcome == 'return'] if ok_last else []
+        except Unsupported as u_:
+            O.append(core.Obl(base + '/extraction', 'open', 'extraction', 0.0, detail=str(u_)[:200])); continue
+        if len(paths) != 1 or 'res' not in box:
+            O.append(core.Obl(base + '/extraction', 'open', 'extraction', 0.0, detail='%d paths; store is vals[3:]: %s; fsolve reached: %s' % (len(paths), ok_last, 'res' in box))); continue
+        row, lists = paths[0].value
+        p_, r_, sie_, M_, u_, v_ = [sp.sympify(q) for q in (row.items if hasattr(row, 'items') and not isinstance(row, dict) else row)]
+        p0_, r0_ = st[0], st[1]
+        ref_d, ref_r, ref_M = [sp.sympify(q) for q in _run('expansion_states', [pf, st], hy)[0].value]
+        h2 = hy + [pf < p0_]
+        O.append(core.prove_zero(base + '/pressure_is_fsolve_root', p_ - pf, h2, goal_text='pressure inside the fan is the root of the turning-angle equation'))
+        sgn = 1 if key == 'BR' else -1          # bottom fan: deflection + this_angle = 0 ; top fan: deflection - this_angle = 0
+        ang0 = attrs['angles'][key].items[0 if key == 'BR' else 1]
+        O.append(core.prove_zero(base + '/turning_equation', box['res'] - (ref_d + sgn * (phi - ang0)), h2, goal_text='the equation solved is deflection(p; outer %s state) %s (polar angle - fan edge angle) = 0 with the expansion relation of the %s state' % (side, '+' if sgn > 0 else '-', side)))
+        O.append(core.prove_zero(base + '/density_on_isentrope', p_ / r_ ** g_ - p0_ / r0_ ** g_, h2, goal_text='p / rho^gamma of the %s state (own gamma)' % side))
+        O.append(core.prove_zero(base + '/mach_from_expansion_states', M_ - ref_M, h2, goal_text='Mach number from the expansion relation of the %s state' % side))
+        O.append(core.prove_zero(base + '/sie=p/(rho(gamma-1))', sie_ - p_ / r_ / (g_ - 1), h2, goal_text='specific internal energy with the gamma of the %s gas' % side))
+        O.append(core.prove_zero(base + '/speed=Mach*sound', u_ ** 2 + v_ ** 2 - M_ ** 2 * g_ * p_ / r_, h2 + [M_ ** 2 > 0], goal_text='u^2 + v^2 == M^2 gamma p / rho with the gamma of the %s gas' % side))
+        fl = thd * sp.pi / 180 + (phi - ang0)
+        O.append(core.prove_zero(base + '/flow_direction', u_ * sp.sin(fl) - v_ * sp.cos(fl), h2, goal_text='flow angle == upstream flow angle %s deflection' % ('-' if sgn > 0 else '+')))
+        if key == 'BR':
+            for nm, want in (('bottom_vals', [pB, rB, pB / rB / (gB - 1), MB, A['uB'], A['vB']]), ('top_vals', [pT, rT, pT / rT / (gT - 1), MT, A['uT'], A['vT']]),
+                             ('bottom_star_vals', [pst, A['rB_star'], pst / A['rB_star'] / (gB - 1), A['MB_star'], A['uB_star'], A['vB_star']]),
+                             ('top_star_vals', [pst, A['rT_star'], pst / A['rT_star'] / (gT - 1), A['MT_star'], A['uT_star'], A['vT_star']])):
+                got = lists.get(nm); got = list(got.items) if hasattr(got, 'items') and not isinstance(got, dict) else (list(got) if got is not None else None)
+                if got is None or len(got) != 6: O.append(core.structural('C19/lineout/%s' % nm, False, str(got)[:100], None, 'path-analysis', '%s = [p, rho, sie, M, u, v]' % nm)); continue
+                for q, (g1, w1) in zip(('p', 'rho', 'sie', 'M', 'u', 'v'), zip(got, want)):
+                    O.append(core.prove_zero('C19/lineout/%s:%s' % (nm, q), sp.sympify(g1) - w1, hy, goal_text='%s entry %s (sie with the gamma of its own gas)' % (nm, q)))
+    for o in O: o.pop('cex_raw', None)
+    return res
+
+
 BOUNDED = r'''
 import json, io, contextlib, warnings, math
 import numpy as np
@@ -243,7 +320,7 @@ def bounded_cases(tier):
     import random
     rnd = random.Random(core.SEED + 19)
     cases = [('aligned/test_pair_1', (1.0, 1.0, 2.4, 0.0, 1.4), (0.25, 0.5, 7.0, 0.0, 1.4)), ('aligned/test_pair_2', (1.0, 1.0, 4.0, 0.0, 1.4), (1.0, 0.5, 2.4, 0.0, 1.4)),
-             ('aligned/test_pair_3', (0.25, 0.5, 4.0, 0.0, 1.4), (1.0, 1.0, 2.4, 0.0, 1.4)), ('aligned/two_gammas', (1.0, 1.0, 3.0, 0.0, 1.4), (0.5, 1.0, 3.0, 0.0, 1.67)),
+             ('aligned/test_pair_3', (0.25, 0.5, 4.0, 0.0, 1.4), (1.0, 1.0, 2.4, 0.0, 1.4)), ('aligned/two_gammas', (1.0, 1.0, 3.0, 0.0, 1.4), (0.5, 1.0, 3.0, 0.0, 1.67)), ('aligned/two_gammas_top_fan', (0.25, 0.5, 7.0, 0.0, 1.4), (1.0, 1.0, 2.4, 0.0, 1.67)),
              ('inclined/converging_5deg', (1.0, 1.0, 3.0, 5.0, 1.4), (1.0, 1.0, 3.0, -5.0, 1.4)), ('inclined/diverging_5deg', (1.0, 1.0, 3.0, -5.0, 1.4), (1.0, 1.0, 3.0, 5.0, 1.4)),
              ('inclined/common_3deg', (1.0, 1.0, 2.4, 3.0, 1.4), (0.25, 0.5, 7.0, 3.0, 1.4))]
     for k in range(4 if tier == 'quick' else 40):
@@ -268,7 +345,7 @@ def unit_bounded(tier):
 
 def units(tier):
     return [('compression', {'kind': 'comp'}), ('prandtl_meyer', {'kind': 'pm'}), ('expansion', {'kind': 'exp'}), ('shock_angle', {'kind': 'ang'})] + \
-           [('star/' + m, {'kind': 'star', 'morph': m}) for m in ('S-C-S', 'S-C-R', 'R-C-S', 'R-C-R')] + [('bounded', {'kind': 'bd', 'tier': tier})]
+           [('star/' + m, {'kind': 'star', 'morph': m}) for m in ('S-C-S', 'S-C-R', 'R-C-S', 'R-C-R')] + [('lineout', {'kind': 'line'}), ('bounded', {'kind': 'bd', 'tier': tier})]
 
 
 def run_unit(name, kind, morph=None, tier='quick'):
@@ -277,4 +354,5 @@ def run_unit(name, kind, morph=None, tier='quick'):
     if kind == 'exp': return unit_expansion()
     if kind == 'ang': return unit_shock_angle()
     if kind == 'star': return unit_star(morph)
+    if kind == 'line': return unit_lineout()
     return unit_bounded(tier)
